@@ -391,6 +391,28 @@ def rule_byte(rep, d, fns):
                                  d.text(top)[:60], iv))
 
 
+def rule_tail_reads(rep, d, fns):
+    """the tail helper load_bytes(p, n) may read p[0..n-1] only: a fixed-width memcpy from p reads past buffer + length"""
+    fn = fns["load"]
+    ps = [p.get("name") for p in ir.params(fn)]
+    found = 0
+    for n in ir.walk_expr(ir.body(fn)):
+        if n.get("kind") != "CallExpr":
+            continue
+        t = ir.sx(n)
+        if t[0] == "call" and t[1] in (("ref", "memcpy"), ("ref", "memmove")) and len(t) == 5:
+            src, size = t[3], t[4]
+            if any(s_ == ("ref", ps[0]) for s_ in ir.subterms(src)):
+                found += 1
+                if not any(s_ == ("ref", ps[1]) for s_ in ir.subterms(size)):
+                    rep.violates("C14.byte", fn.get("name"), "bulk read `%s`" % d.text(n)[:50], where=d.where(n),
+                                 detail="copies `%s` bytes from the input regardless of the `%s` bytes that remain: for an exact-size key the read runs past buffer + length" % (
+                                     ir.show(size), ps[1]))
+                else:
+                    rep.holds("C14.byte", fn.get("name"), "bulk read `%s`" % d.text(n)[:50], where=d.where(n), detail="size bounded by %s" % ps[1])
+    return found
+
+
 def lit_int(t):
     return t[1] if t[0] == "lit" and isinstance(t[1], int) else None
 
@@ -535,6 +557,7 @@ def run(tier):
     rule_std_hash(rep)
     rule_addr(rep, d, fns)
     rule_byte(rep, d, fns)
+    rule_tail_reads(rep, d, fns)
     rule_cursor(rep, d, fns)
     rule_const(rep, d, fns)
     rep.unit("7 functions of xhash.hpp + std::hash<xbasic_fixed_string>::operator()")
